@@ -36,8 +36,8 @@ type c20Mutation struct {
 type c20Model struct {
 	Project  *projgen.Project `json:"project"`
 	Mutation *c20Mutation     `json:"mutation,omitempty"`
-	Style    int              `json:"style"`    // 0 JSON, 1 comments+trailing commas, 2 unquoted keys + single quotes
-	DropGlob bool             `json:"dropGlob"` // leave one controller file outside the globs
+	Style    int              `json:"style"`             // 0 JSON, 1 comments+trailing commas, 2 unquoted keys + single quotes
+	DropGlob bool             `json:"dropGlob"`          // leave one controller file outside the globs
 	RePerms  string           `json:"rePerms,omitempty"` // regenerate a second time with these permissions
 }
 
